@@ -70,6 +70,17 @@ func main() {
 		}
 		os.Exit(1)
 	}
+	if *gen == "functions" {
+		if err := writeInventory(p, filepath.Join(*verif, "ref", "functions.tsv")); err != nil {
+			fmt.Fprintln(os.Stderr, err)
+			os.Exit(2)
+		}
+		return
+	}
+	if err := resolveRenames(p, *verif); err != nil {
+		fmt.Printf("-: load: kind=undecided: reference inventory: %v\n", err)
+		os.Exit(1)
+	}
 	if *gen == "registry" {
 		reg := BuildRegistry(p)
 		for _, pr := range reg.Problems {
@@ -108,6 +119,10 @@ func main() {
 	r.Extra["packages_loaded"] = len(p.ByPath)
 	r.Extra["checker_cmd"] = strings.Join(os.Args, " ")
 	r.Extra["trusted_base"] = []string{"go/types (type checking, constant evaluation)", "golang.org/x/tools go/packages, go/ssa, callgraph/vta", "reference tables under /verif/ref"}
+	for _, n := range renameNotes {
+		r.Infof("anchor resolution: %s", n)
+	}
+	r.Extra["renamed_anchors"] = len(renameNotes)
 	f(r, *verif)
 	if *mutants != "" {
 		if b, err := os.ReadFile(*mutants); err == nil {
